@@ -44,7 +44,14 @@ META['level_note'] = (
 #   ['L', leaf]  ['D', [[k, t], ...]]  ['l', [t, ...]]  ['O', cls, [[k, t], ...]]
 #   ['1', [cand, ...], name, hints]  ['M', k, [cand, ...], dist, srt, name, hints]  ['F', lo, hi, name, hints]  ['X', ck, name, hints]
 # where: ['none'] (where=None) ['all'] ['kind', o, m, f, c] ['ncands', n] ['name', s] ['hints', z] ['not', w] ['or', a, b]
-CLASSES = [('HA', ['x', 'y']), ('HB', ['p']), ('HC', ['u', 'v', 'w']), ('HD', [])]
+CLASSES = [('HA', ['x', 'y']), ('HB', ['p']), ('HC', ['u', 'v', 'w']), ('HD', []),
+           # classes with typed fields (placeholders are validated against the field's value spec when they are bound)
+           ('TI', ['i', 's', 'f', 'e']), ('TL', ['l', 'd'])]
+N_UNTYPED = 4
+def field_specs(pg):
+  T = pg.typing
+  return {'TI': dict(i=T.Int(min_value=0, max_value=9), s=T.Str(), f=T.Float(min_value=0.0, max_value=4.0), e=T.Enum(1, [1, 2, 3])),
+          'TL': dict(l=T.List(T.Int(), min_size=2, max_size=3), d=T.Dict([('k', T.Int())]))}
 _PY = {}
 
 def py():
@@ -54,8 +61,9 @@ def py():
   import pyglove as pg
   _PY['pg'] = pg
   cls = []
+  specs = field_specs(pg)
   for name, fields in CLASSES:
-    cls.append(pg.members([(f, pg.typing.Any()) for f in fields])(type(name, (pg.Object,), {})))
+    cls.append(pg.members([(f, specs.get(name, {}).get(f, pg.typing.Any())) for f in fields])(type(name, (pg.Object,), {})))
   _PY['classes'] = cls
   class CodePoints(pg.hyper.CustomHyper):
     def custom_decode(self, dna):
@@ -369,7 +377,7 @@ class TGen:
     if x < 0.34: return self.leaf()
     if x < 0.56: return ['D', [[k, self.value(d - 1, p_h)] for k in r.sample(KEYS, r.choice([0, 1, 2, 2, 3]))]]
     if x < 0.78: return ['l', [self.value(d - 1, p_h) for _ in range(r.choice([0, 1, 2, 2, 3]))]]
-    ci = r.randrange(len(CLASSES))
+    ci = r.randrange(N_UNTYPED)
     return ['O', ci, [[f, self.value(d - 1, p_h)] for f in CLASSES[ci][1]]]
   def cands(self, n, d):
     r = self.r
@@ -461,6 +469,73 @@ SWEEP_WHERES = [
     ('nested-only', ['not', ['or', ['hints', 5], ['or', ['hints', 6], ['hints', 9]]]]),   # only what is nested INSIDE the placeholder's candidates
 ]
 
+# ---- typed fields: placeholders bound to value specs ------------------------------------------------------------
+L_ = lambda x: ['L', x]
+def typed_sweep():
+  """(label, template, may_refuse): placeholders in fields with value specs.  may_refuse: the library may (must, once the
+  size check exists) refuse to bind the placeholder; a refusal is then not a generator bug."""
+  out = []
+  TI = lambda i=L_(1), s=L_('a'), f=L_(0.5), e=L_(1): ['O', 4, [['i', i], ['s', s], ['f', f], ['e', e]]]
+  TL = lambda l=['l', [L_(1), L_(2)]], d=['D', [['k', L_(1)]]]: ['O', 5, [['l', l], ['d', d]]]
+  one = lambda cs, hints=None: ['1', cs, None, hints]
+  for k in (1, 2, 3, 4):
+    for dist in (True, False):
+      for srt in (True, False):
+        m = ('D' if dist else '') + ('S' if srt else '')
+        out.append(('manyof%s-k%d-in-List(min2,max3)' % (m, k), TL(l=['M', k, [L_(1), L_(2), L_(3), L_(4)], dist, srt, None, 5]), k in (1, 4)))
+  out += [
+      ('oneof-in-Int', TI(i=one([L_(0), L_(5), L_(9)])), False),
+      ('nested-oneof-in-Int', TI(i=one([L_(0), one([L_(3), L_(4)]), L_(9)])), False),
+      ('oneof-in-Str+Word', TI(s=one([L_('p'), L_('q'), ['X', 1, None, None]])), False),
+      ('floatv-in-Float', TI(f=['F', 0.5, 2.0, None, None]), False),
+      ('oneof-floatv-in-Float', TI(f=one([['F', 0.5, 1.0, None, None], L_(3.5)])), False),
+      ('oneof-in-Enum', TI(e=one([L_(3), L_(2)])), False),
+      ('all-fields', TI(i=one([L_(1), L_(2)]), s=one([L_('x'), L_('y')]), f=['F', 0.0, 4.0, None, None], e=one([L_(1), L_(2), L_(3)])), False),
+      ('oneof-of-lists-in-List', TL(l=one([['l', [L_(1), L_(2)]], ['l', [L_(3), L_(4), L_(5)]]])), False),
+      ('oneof-of-manyof-in-List', TL(l=one([['M', 2, [L_(1), L_(2), L_(3)], True, True, None, None], ['l', [L_(7), L_(8), L_(9)]]])), False),
+      ('oneof-in-Dict-field', TL(d=['D', [['k', one([L_(1), L_(2)])]]]), False),
+      ('oneof-of-dicts-in-Dict', TL(d=one([['D', [['k', L_(1)]]], ['D', [['k', one([L_(5), L_(6)])]]]])), False),
+      ('typed-object-as-candidate', ['D', [['a', one([TI(i=one([L_(1), L_(2)])), L_(None)])]]], False),
+      ('typed-object-in-manyof', ['M', 2, [TL(l=['M', 2, [L_(1), L_(2), L_(3)], True, False, None, None]), L_('z'), TI()], True, False, None, None], False),
+      # non-conforming on purpose: must be refused when bound, or at least never produce a value the spec rejects
+      ('floatv-out-of-Float-range', TI(f=['F', 0.5, 8.0, None, None]), True),
+      ('oneof-out-of-Int-range', TI(i=one([L_(1), L_(12)])), True),
+      ('oneof-out-of-Enum', TI(e=one([L_(1), L_(7)])), True),
+      ('manyof-of-strs-in-List(Int)', TL(l=['M', 2, [L_('a'), L_('b'), L_('c')], True, False, None, None]), True),
+  ]
+  return out
+
+def random_typed(rng):
+  """A random template around the typed classes; conforming placeholders only, except manyof sizes (1..4 against [2, 3])."""
+  one = lambda cs: ['1', cs, None, rng.choice([None, 1, 2])]
+  def ints(n, lo, hi):
+    return [L_(x) for x in rng.sample(range(lo, hi + 1), n)]
+  def ifield():
+    r = rng.random()
+    if r < 0.3: return L_(rng.randint(0, 9))
+    if r < 0.7: return one(ints(rng.randint(1, 3), 0, 9))
+    cs = ints(3, 0, 9)
+    return one([cs[0], one(cs[1:])])
+  def lfield():
+    r = rng.random()
+    if r < 0.2: return ['l', ints(rng.choice([2, 3]), 0, 9)]
+    if r < 0.8:
+      n = rng.randint(2, 4); k = rng.randint(1, 4); dist = rng.random() < 0.5
+      if dist and k > n: k = n
+      return ['M', k, [x if rng.random() < 0.8 else one(ints(2, 10, 20)) for x in ints(n, 0, 9)], dist, rng.random() < 0.5, None, None]
+    return one([['l', ints(2, 0, 4)], ['l', ints(3, 5, 9)]])
+  ti = lambda: ['O', 4, [['i', ifield()], ['s', rng.choice([L_('a'), one([L_('x'), L_('y')]), ['X', 1, None, None]])],
+                         ['f', rng.choice([L_(1.5), ['F', rng.choice([0.0, 0.5]), rng.choice([1.0, 4.0]), None, None], one([L_(0.25), L_(2.5)])])],
+                         ['e', rng.choice([L_(2), one([L_(1), L_(3)])])]]]
+  tl = lambda: ['O', 5, [['l', lfield()], ['d', rng.choice([['D', [['k', ifield()]]], one([['D', [['k', L_(1)]]], ['D', [['k', L_(2)]]]])])]]]
+  r = rng.random()
+  if r < 0.35: t = ti()
+  elif r < 0.7: t = tl()
+  elif r < 0.85: t = ['D', [['a', ti()], ['b', ['l', [tl()]]]]]
+  else: t = one([ti(), tl(), L_(0)])
+  may_refuse = any(h[0] == 'M' and not (2 <= h[1] <= 3) for h in left_hypers(t))
+  return t, may_refuse
+
 def sweep_templates():
   out = []
   for (pl, p), (cl, c), (wl, w) in itertools.product(sweep_placeholders(), sweep_contexts(), SWEEP_WHERES):
@@ -511,6 +586,25 @@ def sym_nodes(v, acc):
     acc[id(v)] = v
     for c in (v.values() if isinstance(v, dict) else v): sym_nodes(c, acc)
   return acc
+
+def check_specs(v):
+  """(class.field, error) of the first typed field of a real value whose content its value spec rejects, or None."""
+  pg = py()['pg']
+  if isinstance(v, pg.Object) and not isinstance(v, pg.hyper.HyperPrimitive):
+    for key, field in v.__class__.__schema__.fields.items():
+      x = v.sym_getattr(str(key))
+      if not isinstance(x, pg.hyper.HyperPrimitive):
+        okf, e = attempt(lambda: field.value.apply(pg.clone(x, deep=True) if isinstance(x, pg.Symbolic) else x))
+        if not okf: return ('%s.%s' % (type(v).__name__, key), '%s: %s' % (type(e).__name__, str(e)[:120]))
+  if isinstance(v, pg.Symbolic):
+    for _, c in v.sym_items():
+      r = check_specs(c)
+      if r: return r
+  elif isinstance(v, (list, dict)):
+    for c in (v.values() if isinstance(v, dict) else v):
+      r = check_specs(c)
+      if r: return r
+  return None
 
 def canon(v):
   """Hashable key of a description modulo Python == (numbers by value, dicts by key set)."""
@@ -589,7 +683,7 @@ def perturbations(rng, vd, limit):
         out.append(('list-reversed', put(vd, p, ['l', node[1][::-1]])))
         out.append(('list-dup-first', put(vd, p, ['l', [node[1][0]] * len(node[1])])))
     elif k == 'O':
-      other = (node[1] + 1) % len(CLASSES)
+      other = (node[1] + 1) % N_UNTYPED
       out.append(('object->other-class', put(vd, p, ['O', other, [[f, ['L', 0]] for f in CLASSES[other][1]]])))
       out.append(('object->dict', put(vd, p, ['D', node[2]])))
     else:
@@ -615,7 +709,13 @@ def process_template(job):
   origin = label.split(':')[0]
   rec.hist('template_origin', origin); rec.hist('template_placeholder_kinds', kk); rec.hist('template_feature', feat)
   rec.hist('where_kind', w[0] if w[0] != 'not' else 'not-' + w[1][0])
-  hv = to_pg(t)                     # a generated template the library refuses to build is a generator bug: fail closed
+  if label.endswith('?'):           # typed template that is non-conforming on purpose: the library may refuse to bind the placeholder
+    okb, hv = attempt(lambda: to_pg(t))
+    if not okb:
+      rec.hist('binding_refused', '%s: %s' % (label.split(':')[1][:40] if origin == 'typed' else origin, type(hv).__name__)); return rec
+    rec.hist('binding_refused', 'accepted: %s' % (label.split(':')[1][:40] if origin == 'typed' else origin))
+  else:
+    hv = to_pg(t)                   # a generated template the library refuses to build is a generator bug: fail closed
   fn = where_fn(w)
   snap0 = snapshot(hv)
   def unchanged(op, extra=None):
@@ -669,7 +769,8 @@ def process_template(job):
     rec.oracle += 1
     vd = None
     if not ok1:
-      rec.hit('C13/decode-raises/%s/%s' % (type(v).__name__, feat), 'decode of the valid DNA %s raises %s: %s; template %s (%s)' % (dna, type(v).__name__, str(v)[:200], td, wd), dcase)
+      cause = 'bound-value-spec-rejects-decoded-value' if has_node(t, lambda n: n[0] == 'O' and n[1] >= 4) and not isinstance(v, (KeyError, IndexError)) and 'DNA' not in str(v)[:40] else feat
+      rec.hit('C13/decode-raises/%s/%s' % (type(v).__name__, cause), 'decode of the valid DNA %s raises %s: %s; template %s (%s)' % (dna, type(v).__name__, str(v)[:200], td, wd), dcase)
     elif r1 == [1, 8]:
       rec.hit('C13/decode-shape/unrepresentable/%s' % feat, 'decode of %s returns a value outside the template language: %r; template %s (%s)' % (dna, v, td, wd), dcase)
     else:
@@ -689,6 +790,10 @@ def process_template(job):
       if not ok2 or not pg.eq(v, v2) or from_pg(v2) != vd:
         rec.hit('C13/decode-twice/%s' % feat, 'decoding %s twice gives %s and then %s' % (dna, describe(vd), describe(from_pg(v2)) if ok2 else type(v2).__name__), dcase)
       unchanged('decode', dict(sdna=sd))
+      # every typed field of the decoded value is accepted by its value spec
+      bad_field = check_specs(v)
+      if bad_field:
+        rec.hit('C13/respects-spec/%s' % bad_field[0], 'decode of %s puts a value into field %s that its value spec rejects: %s; template %s (%s)' % (dna, bad_field[0], bad_field[1], td, wd), dcase)
       # the result does not share mutable nodes with the template
       shared = [n for i, n in sym_nodes(v, {}).items() if i in hv_nodes]
       if shared:
@@ -732,6 +837,7 @@ def process_template(job):
         okb, real = attempt(lambda: to_pg(pv))
         if not okb:
           rec.hist('perturbation_unconstructible', type(real).__name__); continue
+        pv = from_pg(real)          # what was actually built (a typed field may have converted an int to a float)
         oke, de = attempt(lambda: tm.encode(real))
         rec.add([3, qtr, wtr, ttr, t_tr(pv)], [res_dna(oke, de)], dict(op='encode-perturbed', template=td, where=wd, kind=kind, value=describe(pv)))
         rec.count(('enc', trlib.to_line(wtr), trlib.to_line(ttr), trlib.to_line(t_tr(pv))), nontrivial=True, kind='encode-perturbed')
@@ -825,6 +931,15 @@ def run(ctx):
     sweep = [sweep[i] for i in sorted(rng.sample(range(len(sweep)), ctx.scale(170, len(sweep))))]
   ctx.extra['sweep']['run_in_this_tier'] = len(sweep)
   templates = [(l, t, w) for l, t, w in CORPUS] + [('sweep:' + l, t, w) for l, t, w in sweep]
+  tsweep = typed_sweep()
+  ctx.extra['typed_sweep'] = dict(what='placeholders bound to value specs (Int range, Str, Float range, Enum, List(Int, min 2, max 3), Dict schema): manyof k = 1..4 in all four modes, '
+                                       'oneof / nested oneof / floatv / custom / lists / dicts / typed objects as candidates, and non-conforming placeholders that must be refused', templates=len(tsweep))
+  for l, t, mr in tsweep:
+    for w in (['none'], ['kind', 1, 0, 1, 1]):
+      templates.append(('typed:%s%s' % (l, '?' if mr else ''), t, w))
+  for i in range(ctx.scale(60, 1500)):
+    t, mr = random_typed(rng)
+    templates.append(('typed-random:%d%s' % (i, '?' if mr else ''), t, random_where(rng, t) if rng.random() < 0.4 else ['none']))
   for i in range(ctx.scale(260, 6000)):
     g = TGen(rng, hyper_budget=rng.choice([1, 2, 2, 3, 3, 4, 5]), p_collide=rng.choice([0.0, 0.0, 0.1, 0.3]))
     t = g.value(rng.choice([1, 2, 2, 3, 3]), p_h=0.6)
